@@ -159,7 +159,13 @@ std::u8string World::word(int64_t sel, int64_t style)
                                            u8"0", u8"1", u8"42", u8"3.14", u8"'c'", u8"\"str\"" };
    const uint64_t u = uint64_t(sel);
    switch (uint64_t(style) % 4) {
-   case 3: { std::u8string w; for (uint64_t k = 0, v = u * 2654435761u + 11; k < 1 + u % 7; ++k, v = v * 6364136223846793005ull + 1442695040888963407ull) w += char8_t((v >> 33) & 0xff); return w; }   // all byte values
+   case 3: {    // all byte values; one in four ends in one of the bytes 0..3, one in eight has a length that fills its 16-byte granule exactly (8 mod 16)
+      std::u8string w;
+      const uint64_t len = u % 8 == 5 ? 8 + 16 * (u / 8 % 3) : 1 + u % 7;
+      for (uint64_t k = 0, v = u * 2654435761u + 11; k < len; ++k, v = v * 6364136223846793005ull + 1442695040888963407ull) w += char8_t((v >> 33) & 0xff);
+      if (u % 4 == 1) w.back() = char8_t(u / 4 % 4);
+      return w;
+   }
    case 0: return fixed[u % (sizeof fixed / sizeof fixed[0])];
    case 1: { std::u8string w = u8"id"; w += char8_t('a' + u % 26); w += char8_t('0' + (u / 26) % 10); return w; }
    default: { std::u8string w; for (uint64_t k = 0, v = u; k < 1 + u % 9; ++k, v = v * 31 + 7) w += char8_t(33 + v % 90); return w; }
@@ -235,6 +241,7 @@ Ref World::reg_ref(Ref r, Reading exp, bool generative, ObserveFn fn)
    if (opt.check_creation) {
       ++creation_checks;
       ObsOptions oo;
+      oo.order = unsigned(observations++ % 3);
       Reading actual = fn(r, oo);
       std::string d = diff_readings(exp, actual);
       if (not d.empty())
@@ -411,6 +418,7 @@ std::string World::check_object(Ref r, bool probe)
    if (it == recs.end()) return "";
    ObsOptions oo;
    oo.probe_bounds = probe;
+   oo.order = unsigned(observations++ % 3);
    Reading actual = it->second.observe(r, oo);
    std::string d = diff_readings(it->second.exp, actual);
    if (d.empty() and it->second.borrow != nullptr) {
@@ -504,6 +512,7 @@ Verdict World::sweep_reachable(size_t cap)
    std::vector<Ref> queue;
    ObsOptions oo;
    oo.probe_bounds = true;
+   oo.order = unsigned(observations++ % 3);
    auto enqueue_from = [&](const Reading& a) {
       for (auto& sl : a.slots)
          if (sl.is_ref and sl.is_node and sl.ref != nullptr and sl.ref != ABSENT and recs.find(sl.ref) == recs.end() and seen.emplace(sl.ref, 1).second) queue.push_back(sl.ref);
@@ -653,7 +662,23 @@ Verdict World::check_homogeneous(const HomoModel& h)
 {
    static const char* kinds[] = { "parameters", "enumerators", "bases", "eh" };
    const std::string tag = prop + "/homogeneous/" + kinds[h.kind];
-   if (tainted.count(h.scope)) return Verdict::ok();
+   if (tainted.count(h.scope)) {
+      // An operation on this list was cut short by an injected allocation failure.  What it then contains is the
+      // library's business, but it is still a sequence: every index below size() designates a member, and a member's
+      // position is its index (observation only, nothing is compared with the model).
+      const auto& el = h.scope->elements();
+      const size_t n = el.size();
+      if (n > h.decls.size() + 1) return Verdict::fail(tag + "/after-fault/size", "after one failed insertion the list reports " + std::to_string(n) + " members, " + std::to_string(h.decls.size()) + " insertions succeeded");
+      for (size_t i = 0; i < n; ++i) {
+         const ipr::Decl& d = *el.position(i);
+         int64_t pos = int64_t(i);
+         if (auto p = ipr::util::view<ipr::Parameter>(d)) pos = int64_t(p->position());
+         else if (auto e = ipr::util::view<ipr::Enumerator>(d)) pos = int64_t(e->position());
+         else if (auto b = ipr::util::view<ipr::Base_type>(d)) pos = int64_t(b->position());
+         if (pos != int64_t(i)) return Verdict::fail(tag + "/after-fault/position", "after a failed insertion, member " + std::to_string(i) + " reports position " + std::to_string((long long) pos));
+      }
+      return Verdict::ok();
+   }
    const ipr::Scope& sc = *h.scope;
    const auto& el = sc.elements();
    if (el.size() != h.decls.size())
